@@ -11,7 +11,8 @@ BUDGET = {"quick": 16000, "thorough": 320000}
 WALL_CAP = {"quick": 600, "thorough": 5400}
 RULE = ("case = generated 2D/3D plotfile x ordered variable selection (known names in any order, optionally "
         "unknown names, or 'all') x level limit x {API, CLI} x {relative, absolute} paths, strained under a drawn "
-        "SimPool schedule with poisoned np.empty; output parsed by the independent reader and tasted; "
+        "SimPool schedule with poisoned np.empty, in 1/6 of the cases with one write cut short or torn (then either "
+        "the failure is reported or the output is judged like any other); output parsed by the independent reader and tasted; "
         "non-trivial = some level has >=2 binary files or a non-monotone layout, or fields are dropped/reordered, "
         "or a level is dropped; distinct = hash(world, selection, limit, entry form, schedules)")
 ASSUMPTIONS = ["independent reader/model is the oracle", "inputs are what AMReX writes (dense packing, exact FAB "
@@ -75,8 +76,30 @@ def run_case(ctx):
     if hmode == "rel-cwd":
         # the history fixes the invocation form: relative name from the second run directory
         in_arg, work, out_arg = path_arg, hcwd, out_abs
-    o = run_colander(ctx, m, path, req, limit, out_arg, work, cli, in_arg)
+    # in a share of the cases one write of the run is cut short / torn (disk filling up): the run may fail
+    # visibly, but whenever colander RETURNS NORMALLY its output has to be the complete, exact one
+    fault = None
+    if src.flag("fault", 6):
+        fault = (src.draw("fault.site", 0, 47), src.choice("fault.kind", ["SHORT", "TORN"]),
+                 bool(src.draw("fault.sticky", 0, 1)))
+        ctx.fault_plan = {fault[0]: fault[1]}
+        ctx.fault_sticky = fault[2]
+        ctx.sticky_paths, ctx.sticky_all, ctx.site_counter, ctx.faults_fired = set(), False, 0, []
+    try:
+        o = run_colander(ctx, m, path, req, limit, out_arg, work, cli, in_arg)
+    finally:
+        ctx.fault_plan = {}
+        ctx.fault_sticky = False
     sig = {"property": ID, "entry": "cli" if cli else "api", "ndims": m.ndims}
+    if fault and ctx.faults_fired:
+        ctx.probe("write_fault_fired")
+        if o.failed_visibly():
+            ctx.probe("write_fault_reported")
+            ctx.nontrivial = True
+            ctx.case_key = common.key_of([m.summary(), req, limit, cli, fault])
+            ctx.sample = {"world": m.summary(), "variables": req, "fault": list(fault), "outcome": "reported"}
+            return
+        sig["after_fault"] = fault[1]
     if not o.ok:
         raise Violation({**sig, "oracle": "strain-raises", **o.exc_sig()},
                         f"colander raised {o.exc!r} on a well-formed plotfile, vars={req}, limit={limit}")
